@@ -12,7 +12,7 @@ from typing import Any, Dict, Iterator, List
 
 ROOT = os.path.dirname(os.path.dirname(os.path.abspath(__file__)))
 sys.path.insert(0, ROOT)
-from engine import common, mbt  # noqa: E402
+from engine import common, mbt, tlc  # noqa: E402
 
 
 def switches() -> Dict[str, bool]:
@@ -157,7 +157,13 @@ def run_check(prop: str, tier: str) -> int:
     ncf = 400 if q else 5000
     idxs = list(range(0, len(traces), max(1, len(traces) // ncf)))[:ncf]
     ctext = "SPECIFICATION TraceSpec\n" + const_text(sw, 100000, 100000, cfgs="Cfgs = {}") + "INVARIANT Progress\nPOSTCONDITION Done\nCHECK_DEADLOCK FALSE\n"
-    cf = mbt.conform([traces[i] for i in idxs], "TracePm", ctext)
+    try:
+        cf = mbt.conform([traces[i] for i in idxs], "TracePm", ctext)
+    except tlc.TLCError as exc:
+        if not rep.violations:
+            raise
+        rep.info('conformance run failed after violations were found: ' + str(exc)[:300])
+        cf = []
     accepted = sum(1 for a, b in cf if a == b)
     for (a, b), i in zip(cf, idxs):
         if a != b:
